@@ -329,6 +329,15 @@ def _keys(ctx) -> None:
                     for n_ in ([c] if c[0] == "name" else list(c[1]) if c[0] == "tuple" else []):
                         if n_[0] == "name":
                             classes.add(n_[1])
+    # [] is the index list of no position (v[[i for i in idx if cond]] = 0 with nothing to overwrite): on a vector of 3 it does not
+    # certainly reach a refusal (all() of no element makes it a mask of the wrong length)
+    from .c07 import certainly_raised_for_empty_list
+    n_r, refused = certainly_raised_for_empty_list(prog, "vector.Vector.__setitem__", self_len=3, errors=("Error",))
+    ctx.ob("c.key-forms", f, "empty-index-list", not refused, f"{n_r} raise(s) judged, none certainly reached by key = [] on a vector of 3",
+           (refused[0].node if refused else f.node),
+           message=f"Vector.__setitem__: v[[]] = x on a non-empty vector certainly reaches the refusal at line "
+                   f"{getattr(refused[0].node, 'lineno', 0) if refused else 0} ([] is classified as a boolean mask - all() of no element is True - and "
+                   f"fails the mask length check) while v[()] = x and v[Vector([])] = x address nothing and succeed")
     ok = {"Vector", "slice", "int"} <= classes and bool({"list", "tuple"} & classes)
     ctx.ob("c.key-forms", f, "dispatch", ok, f"key classes dispatched on: {sorted(classes)}", f.node,
            message=f"the key dispatch tests {sorted(classes)}; expected mask, slice, int, int vector, int list/tuple")
@@ -573,7 +582,7 @@ def _table(ctx) -> None:
             return True
         if t[0] == "ifexp":
             return is_value(t[2]) and is_value(t[3])
-        if t[0] == "call" and t[1] == ("attr", VALUE, "copy") and not t[2] and not t[3]:
+        if t[0] == "call" and t[1][0] == "attr" and t[1][2] == "copy" and is_value(t[1][1]) and not t[2] and not t[3]:
             return True
         if t[0] == "call" and t[1] in (("name", "list"), ("name", "tuple")) and len(t[2]) == 1 and not t[3]:
             return is_value(t[2][0])
@@ -583,24 +592,11 @@ def _table(ctx) -> None:
             evs = [e for e in it.events if e.kind == "elem" and e.term == t]
             if len(evs) == 1 and len(evs[0].loops) >= 1:
                 L = [x for x in evs[0].loops if x not in it.objs[t[1]].loops]
-                if len(L) == 1 and it.loops[L[0]].iter == VALUE:
-                    x = ("elem", VALUE, L[0])
+                if len(L) == 1 and is_value(it.loops[L[0]].iter):
+                    x = ("elem", it.loops[L[0]].iter, L[0])
                     from ..sites2 import leaves as _lv
                     return all(v == x or v == ("call", ("attr", x, "copy"), (), ()) for v in _lv(evs[0].value))
         return False
-    vec_form = False
-    for e in cell_stores:
-        if not is_value(e.value):
-            continue
-        for t, pol in flatten_conds(e.conds):
-            if pol and t[0] == "call" and t[1] == ("name", "isinstance") and len(t[2]) == 2 and is_value(t[2][0]):
-                ks = t[2][1]
-                names = {x[1] for x in ([ks] if ks[0] == "name" else list(ks[1]) if ks[0] == "tuple" else []) if x[0] == "name"}
-                if "Vector" in names:
-                    vec_form = True
-    ctx.ob("f.table-delegation", f, "vector-value", vec_form, "one target column accepts a plain vector of values", f.node,
-           message="Table.__setitem__ hands a value to a single target column only when it is a list or tuple: `t[:, 'a'] = Vector([...])` "
-                   "(the natural way to replace a column's cells) is refused as an unsupported value type")
     # unsupported values raise
     fin = [e for e in it.events if e.kind == "raise" and e.term[0] == "call" and e.term[1] == ("name", "SerifTypeError")
            and any(x == VALUE for t, pol in flatten_conds(e.conds) for x in deep_subterms(it, t))
@@ -632,11 +628,147 @@ def _table(ctx) -> None:
                    "t[0, :] = [10, 'x'] (second column refuses its value) leaves the first column written - a failed assignment must "
                    "change nothing")
     snap = all(is_value(m.value) or (m.value[0] in ("sub", "elem") and any(is_value(x) for x in subterms(m.value))) for m in cell_stores)
-    snapped = any(x[0] == "call" and x[1] == ("attr", VALUE, "copy") for m in cell_stores for x in deep_subterms(it, m.value))
-    ctx.ob("f.table-delegation", f, "key-value-snapshot", snap and snapped,
-           "a Vector key / value (possibly a live column of this table) is copied before the first column is written", f.node,
-           message="Table.__setitem__ reads its key / value while writing column after column: t[:, ['a', 'b']] = [t.b, t.a] sets both "
-                   "columns to b (the value is not snapshotted with .copy() before the first write)")
+    snapped = any(x[0] == "call" and x[1][0] == "attr" and x[1][2] == "copy" and is_value(x[1][1]) and not x[2]
+                  for m in cell_stores for x in deep_subterms(it, m.value))
+    # ... for EVERY form the value can arrive in: evaluated by kind (a vector; a list / tuple of columns; a one-shot iterator of
+    # columns - reversed([t.a, t.b]), a generator, map), the sequence whose items are written column after column must hold copies
+    # of the vectors in it, not the (possibly live) vectors themselves
+    def kval(t, K, depth=0):
+        if depth > 12:
+            return None
+        if t == VALUE:
+            return ("raw", K)
+        if t[0] == "ifexp":
+            tr = ktruth(t[1], K, depth + 1)
+            if tr is None:
+                a_, b_ = kval(t[2], K, depth + 1), kval(t[3], K, depth + 1)
+                return a_ if a_ == b_ else None
+            return kval(t[2] if tr else t[3], K, depth + 1)
+        if t[0] == "call" and t[1][0] == "attr" and t[1][2] == "copy" and not t[2]:
+            return "snap" if kval(t[1][1], K, depth + 1) == ("raw", "Vector") else None
+        inner = None
+        if t[0] == "call" and t[1] in (("name", "list"), ("name", "tuple")) and len(t[2]) == 1 and not t[3]:
+            inner = t[2][0]
+        elif t[0] == "obj" and it.objs[t[1]].kind == "list" and isinstance(it.objs[t[1]].node, ast.Call) and len(it.objs[t[1]].init) == 1:
+            inner = it.objs[t[1]].init[0]
+        if inner is not None:
+            kv = kval(inner, K, depth + 1)
+            if kv == "list-snap":
+                return kv
+            return "list-shared" if kv is not None and (kv == "list-shared" or kv[0] == "raw") else None
+        if t[0] == "obj" and it.objs[t[1]].kind == "listcomp":
+            evs = [e for e in it.events if e.kind == "elem" and e.term == t]
+            if len(evs) == 1 and evs[0].loops:
+                L = [x for x in evs[0].loops if x not in it.objs[t[1]].loops]
+                if len(L) == 1:
+                    src = it.loops[L[0]].iter
+                    kv = kval(src, K, depth + 1)
+                    x = ("elem", src, L[0])
+                    from ..sites2 import leaves_with_conds as _lwc
+                    copies = True
+                    for v, cs in _lwc(evs[0].value):
+                        if v == ("call", ("attr", x, "copy"), (), ()):
+                            continue
+                        # the item itself: only where it is known not to be a vector
+                        if v == x and any((not pol) and c[0] == "call" and c[1] == ("name", "isinstance") and c[2][0] == x
+                                          and any(y == ("name", "Vector") for y in subterms(c[2][1])) for c, pol in cs):
+                            continue
+                        copies = False
+                    if kv is not None and kv != "snap":
+                        return "list-snap" if copies else "list-shared"
+        return None
+
+    KINDS = {"Vector": {"Vector", "Iterable", "Sized", "Collection", "Sequence"}, "list": {"list", "Iterable", "Sequence", "Sized", "Collection"},
+             "tuple": {"tuple", "Iterable", "Sequence", "Sized", "Collection"}, "Iterator": {"Iterator", "Iterable"},
+             "deque": {"deque", "Iterable", "Sequence", "MutableSequence", "Sized", "Collection", "Reversible"}}
+
+    def ktruth(c, K, depth=0):
+        if c[0] == "un" and c[1] == "Not":
+            r = ktruth(c[2], K, depth + 1)
+            return None if r is None else not r
+        if c[0] == "bool":
+            rs = [ktruth(x, K, depth + 1) for x in c[2]]
+            if c[1] == "and":
+                return False if False in rs else (None if None in rs else True)
+            return True if True in rs else (None if None in rs else False)
+        if c[0] == "call" and c[1] == ("name", "isinstance") and len(c[2]) == 2:
+            kv = kval(c[2][0], K, depth + 1)
+            if kv is None:
+                return None
+            mine = KINDS["list"] if kv in ("list-snap", "list-shared") else KINDS["Vector"] if kv == "snap" else KINDS[kv[1]]
+            ts = c[2][1]
+            items = list(ts[1]) if ts[0] == "tuple" else [ts]
+            names = [x[1] for x in items if x[0] == "name"]
+            if any(n in mine for n in names):
+                return True
+            known = {"Vector", "list", "tuple", "Iterator", "Iterable", "Sequence", "str", "bytes", "bytearray", "int", "range", "dict", "Mapping"}
+            if kv != "snap" and kv != ("raw", "Vector"):
+                known |= {"Table", "Row"}
+            if len(names) == len(items) and all(n in known for n in names):
+                return False
+            return None              # (a subclass the kind leaves open: Table, Row, _Int ...)
+        return None
+    # a list / tuple of target columns: every item becomes a target or is refused - no feasible path through one iteration of the
+    # loop over the items reaches the next item without an append to the target list or a raise (an item that is skipped lets the
+    # assignment succeed on the other columns: a bad index must fail it)
+    from ..cfg import cfg_of as _cfg_of, flag_paths as _flag_paths
+    cfgf = _cfg_of(f)
+    item_loops = []
+    for n_ in ast.walk(f.node):
+        if isinstance(n_, ast.For):
+            apps = {c.func.value.id for c in ast.walk(n_) if isinstance(c, ast.Call) and isinstance(c.func, ast.Attribute)
+                    and c.func.attr == "append" and isinstance(c.func.value, ast.Name)}
+            if apps:
+                item_loops.append((n_, apps))
+    for lp_, apps in item_loops:
+        hdr = cfgf.node_of(lp_)
+
+        def is_app(n, apps=apps) -> bool:
+            st = n.ast
+            return n.kind == "stmt" and isinstance(st, ast.Expr) and isinstance(st.value, ast.Call) \
+                and isinstance(st.value.func, ast.Attribute) and st.value.func.attr == "append" \
+                and isinstance(st.value.func.value, ast.Name) and st.value.func.value.id in apps
+        starts = [(hdr, s_) for s_, lab in hdr.succ if lab == "iter"]
+        wit = _flag_paths(cfgf, starts, [hdr], lambda n: is_app(n) or isinstance(n.ast, ast.Raise), ())
+        ctx.ob("f.table-delegation", f, f"every-item-a-target:{sorted(apps)[0]}", wit is None,
+               f"`for {ast.unparse(lp_.target)} in {ast.unparse(lp_.iter)}`: every path through one iteration appends to {sorted(apps)} or raises", lp_,
+               message="Table.__setitem__: an item of a list of target columns can be skipped silently (no branch for an item that is neither a "
+                       "name nor a position): t[:, ['a', 1.0]] = 0 overwrites column a and reports success - witness: "
+                       + (cfgf.fmt_path(wit) if wit else ""))
+    # value forms: a same-length sequence that is not a list - a VECTOR (the natural way to replace a column's cells), a deque, an
+    # array - reaches the column's own assignment too: some store of the whole value is feasible for a value of that kind
+    def feasible(m, K):
+        return all(ktruth(c, K) is not (not pol) for c, pol in flatten_conds(m.conds))
+    refused_kinds = [K for K in ("Vector", "deque") if not any(is_value(m.value) and feasible(m, K) for m in cell_stores)]
+    ctx.ob("f.table-delegation", f, "vector-value", not refused_kinds, "one target column accepts a vector, and any other sequence, of values", f.node,
+           message=f"Table.__setitem__ hands a value to a single target column only when it is a list or tuple (or one of a few listed "
+                   f"types): a {' / '.join(refused_kinds)} of values - `t[:, 'a'] = Vector([...])`, `t[:, 'a'] = deque([...])` - is refused as "
+                   f"an unsupported value type although the column's own assignment accepts it")
+    shared = []
+    for m in cell_stores:
+        if not m.loops:
+            continue
+        for x in subterms(m.value):
+            if x[0] in ("sub", "elem") and is_value(x[1]) if len(x) > 2 else False:
+                for K in ("list", "tuple", "Iterator"):
+                    if not all(ktruth(c, K) is not (not pol) for c, pol in flatten_conds(m.conds)):
+                        continue               # this store is not reached for a value of that kind
+                    kv = kval(x[1], K)
+                    if kv == "list-shared" or (kv is not None and kv[0] == "raw"):
+                        shared.append((K, m))
+    snapped = snapped and not shared
+    if shared:
+        K_, m_ = shared[0]
+        ctx.ob("f.table-delegation", f, "key-value-snapshot", False, "", m_.node,
+               message=f"Table.__setitem__: a value given as a {'one-shot iterator' if K_ == 'Iterator' else K_} of columns is written item by item "
+                       f"without its vectors being copied first: t[:, ['a', 'b']] = "
+                       f"{'reversed([t.a, t.b])' if K_ == 'Iterator' else '[t.b, t.a]'} sets both columns to the old b (what is written first "
+                       f"changes what is read next)")
+    else:
+        ctx.ob("f.table-delegation", f, "key-value-snapshot", snap and snapped,
+               "a Vector key / value (possibly a live column of this table) is copied before the first column is written", f.node,
+               message="Table.__setitem__ reads its key / value while writing column after column: t[:, ['a', 'b']] = [t.b, t.a] sets both "
+                       "columns to b (the value is not snapshotted with .copy() before the first write)")
     # (when the stores live in a private helper evaluated in line, it is the helper that must not run off its end)
     falls = it.falls_through
     if min(m.depth for m in cell_stores) >= 1:
@@ -653,8 +785,19 @@ def _table(ctx) -> None:
 
 _V, _T = "vector", "table"
 MUTANTS = [
+    dict(id="invalid-target-item-skipped", module="table",
+         old="				else:\n					# (not skipped: the assignment would silently succeed on the other columns)\n					raise SerifTypeError(f\"Invalid column index type: {type(c)}\")\n",
+         new="", rules=["f.table-delegation"], desc="reverts fix a545ea3"),
+    dict(id="empty-index-list-taken-for-mask", module="vector", count=2, nth=1,
+         old="		if (isinstance(key, list) or (isinstance(key, Vector) and key.schema() is None)) and len(key) == 0:",
+         new="		if isinstance(key, Vector) and key.schema() is None and len(key) == 0:", rules=["c.key-forms"], desc="reverts fix a2b9f72 (setitem)"),
+    dict(id="iterator-value-not-snapshotted", module="table",
+         old="		if isinstance(value, Iterator):\n			value = list(value)\n		if isinstance(value, Vector):\n			value = value.copy()\n		elif isinstance(value, (list, tuple)):\n			value = [v.copy() if isinstance(v, Vector) else v for v in value]\n",
+         new="		if isinstance(value, Vector):\n			value = value.copy()\n		elif isinstance(value, (list, tuple)):\n			value = [v.copy() if isinstance(v, Vector) else v for v in value]\n		elif isinstance(value, Iterator):\n			value = list(value)\n",
+         rules=["f.table-delegation"], desc="reverts fix 79c529c"),
     dict(id="setitem-no-untyped-empty-key", module="vector",
-         old="		if isinstance(key, Vector) and key.schema() is None and len(key) == 0:\n			key = ()\n", new="", rules=["c.key-forms"],
+         old="		if (isinstance(key, list) or (isinstance(key, Vector) and key.schema() is None)) and len(key) == 0:\n			key = ()\n",
+         new="		if isinstance(key, list) and len(key) == 0:\n			key = ()\n", rules=["c.key-forms"],
          desc="reverts fix a9219f6"),
     dict(id="row-setitem-inherited", module="table", old="	def __setitem__(self, key, value):\n		# A Row is a read-only snapshot",
          new="	def _unused_setitem(self, key, value):\n		# A Row is a read-only snapshot", rules=["c.key-forms"], desc="reverts fix 63aaa1a"),
@@ -666,11 +809,13 @@ MUTANTS = [
          new="				scratch._write_columns(list(range(len(target_indices))), row_spec, None)", rules=["f.table-delegation"],
          desc="the rehearsal does not try the value that is written"),
     dict(id="table-setitem-no-snapshot", module="table",
-         old="		if isinstance(value, Vector):\n			value = value.copy()\n		elif isinstance(value, (list, tuple)):\n			value = [v.copy() if isinstance(v, Vector) else v for v in value]\n		elif isinstance(value, Iterator):",
-         new="		if isinstance(value, Iterator):", rules=["f.table-delegation"],
+         old="		if isinstance(value, Vector):\n			value = value.copy()\n		elif isinstance(value, (list, tuple)):\n			value = [v.copy() if isinstance(v, Vector) else v for v in value]\n",
+         new="", rules=["f.table-delegation"],
          desc="reverts fix 2bfa5e1: t[:, ['a', 'b']] = [t.b, t.a] sets both columns to b"),
+    dict(id="column-assignment-refuses-deques", module="table", old="		if len(target_indices) == 1 and not isinstance(value, (list, tuple, Mapping)):",
+         new="		if len(target_indices) == 1 and isinstance(value, (Vector, range)):", rules=["f.table-delegation"], desc="reverts fix d2e5e29"),
     dict(id="column-assignment-refuses-vectors", module="table",
-         old="		if len(target_indices) == 1 and isinstance(value, (Vector, range)):\n			self._underlying[target_indices[0]][row_spec] = value\n			return\n",
+         old="		if len(target_indices) == 1 and not isinstance(value, (list, tuple, Mapping)):\n			self._underlying[target_indices[0]][row_spec] = value\n			return\n",
          new="", rules=["f.table-delegation"], desc="the defect repaired by fix 23cf839"),
     dict(id="table-setitem-name-via-map-only", module="table",
          old="			idx = self._stored_name_index(col_spec)\n			if idx is None:\n				column_map = self._current_column_map()\n				idx = column_map.get(col_spec) or column_map.get(col_spec.lower())",
